@@ -78,6 +78,10 @@ def _head(st):
         return f"while {ast.unparse(st.test)}:"
     if isinstance(st, ast.If):
         return f"if {ast.unparse(st.test)}:"
+    if isinstance(st, ast.Try):
+        return "try:"
+    if isinstance(st, ast.ExceptHandler):
+        return f"except {ast.unparse(st.type) if st.type else ''}:"
     return ast.unparse(st)
 
 
@@ -88,12 +92,12 @@ def _flat(stmts):
     def go(sts, lvl):
         for st in sts:
             out.append(">" * lvl + _head(st))
-            for attr in ("body", "orelse"):
+            for attr in ("body", "handlers", "orelse"):
                 sub = getattr(st, attr, None)
-                if sub and isinstance(st, ast.For | ast.While | ast.If):
+                if sub and isinstance(st, ast.For | ast.While | ast.If | ast.Try | ast.ExceptHandler):
                     if attr == "orelse":
                         out.append(">" * lvl + "else:")
-                    go(sub, lvl + 1)
+                    go(sub, lvl + (0 if attr == "handlers" else 1))
 
     go(stmts, 0)
     return out
@@ -221,7 +225,33 @@ def _vasp_gen():
     )
 
 
-GEN_BUILDERS = [_glog_gen, _vasp_gen]
+def _crd_gen():
+    from iodata.utils import amu, angstrom
+
+    tree = ast.parse(_src("charmm"))
+    lo = _flat(_body(_func(tree, "load_one")))
+    helper = _func(tree, "_helper_read_crd")
+    cut = lo.index("data = _helper_read_crd(lit)") + 1
+    loop = _first(st for st in _body(helper) if isinstance(st, ast.For))
+    idx = {}
+    for st in loop.body:
+        for n in ast.walk(st):
+            if isinstance(n, ast.Subscript) and isinstance(n.value, ast.Name) and n.value.id == "words" and isinstance(n.slice, ast.Constant):
+                idx[_head(st).split("words")[0]] = n.slice.value
+    want = ["resnums.append(int(", "resnames.append(", "attypes.append(", "pos[i, 0] = float(", "pos[i, 1] = float(",
+            "pos[i, 2] = float(", "segid.append(", "resid.append(int(", "atmasses.append(float("]
+    missing = [w for w in want if w not in idx]
+    if missing:
+        raise LookupError(f"CRD record fields not found: {missing}")
+    return (
+        "def crdL : Crd.Layout := ⟨" + ", ".join(str(idx[w]) for w in want) + "⟩\n\n"
+        "def crdSkel : Crd.Skel :=\n  ⟨" + lstrs(lo[:cut]) + ",\n   " + lstrs(_flat(_body(helper))) + "⟩\n\n"
+        "def crdReturn : List (List Char) :=\n  " + lstrs(lo[cut:]) + "\n\n"
+        f"def crdU : Crd.Units := ⟨{lean_rat(Fraction(angstrom))}, {lean_rat(Fraction(amu))}⟩\n"
+    )
+
+
+GEN_BUILDERS = [_glog_gen, _vasp_gen, _crd_gen]
 
 
 def build_gen() -> str:
@@ -619,9 +649,85 @@ def vasp_impl(raw, ref, kind):
         snap_list(cube.data.ravel(), toks(rf[6]))])
 
 
+# ---------------------------------------------------------------------------------------------
+# CHARMM CRD
+
+CRD_NAMES = ["ALA", "THR", "TIP3", "HSD", "G", "CYS1", "X"]
+CRD_TYPES = ["N", "CA", "HT1", "OH2", "OT2X", "C", "H5''"[:4], "O1P"]
+CRD_SEG = ["MAIN", "W", "PROA", "S1"]
+CRD_SIZES = [1, 2, 3, 9, 10, 11, 99, 100, 101, 0]
+
+
+def crd_gen(rng, i, thorough):
+    n = CRD_SIZES[i % len(CRD_SIZES)] if i < 2 * len(CRD_SIZES) else rng.randint(1, 40)
+    if thorough and i % 40 == 39:
+        n = rng.choice([999, 1000, 1001])
+    tl = []
+    for _ in range(rng.choice([0, 1, 2, 4])):
+        t = F.rand_title(rng, allow_empty=False)
+        tl.append(rng.choice(["", " ", "  "]) + t)
+    atoms = []
+    for k in range(n):
+        atoms.append({"resnum": rng.choice([1, 9, 10, 99, 100, 999, 1000, 9999, rng.randint(1, 9999)]), "resname": rng.choice(CRD_NAMES),
+                      "attype": rng.choice(CRD_TYPES), "xyz": [rand_fixed(rng, 5, 3, 2) for _ in range(3)], "segid": rng.choice(CRD_SEG),
+                      "resid": rng.choice([1, 46, 999, 9999, rng.randint(0, 9999)]), "mass": (False, F.rand_mag(rng, 5, 3), -5)})
+    m = {"title": tl, "atoms": atoms}
+    return m, f"natom={n if n in CRD_SIZES or n > 900 else 'rand'}/title={len(tl)}"
+
+
+def crd_enc(m):
+    def at(a):
+        return ":".join([str(a["resnum"]), F.enc_str(a["resname"]), F.enc_str(a["attype"]), *(enc_num(x) for x in a["xyz"]),
+                         F.enc_str(a["segid"]), str(a["resid"]), enc_num(a["mass"])])
+    return F.enc_list(m["title"], F.enc_str) + ";" + F.enc_list(m["atoms"], at)
+
+
+def crd_write(m):
+    """independent writer of the CHARMM card format (I5,I5,1X,A4,1X,A4,3F10.5,1X,A4,1X,A4,F10.5)"""
+    L = ["*" + t for t in m["title"]] + ["*", f"{len(m['atoms']):5d}"]
+    for k, a in enumerate(m["atoms"]):
+        L.append(f"{k + 1:5d}{a['resnum']:5d} {a['resname']:<4s} {a['attype']:<4s}" + "".join(fixed_text(x, 5, 10) for x in a["xyz"])
+                 + f" {a['segid']:<4s} {str(a['resid']):<4s}" + fixed_text(a["mass"], 5, 10))
+    return ("\n".join(L) + "\n").encode()
+
+
+def _crd_units():
+    from iodata.utils import amu, angstrom
+
+    return Fraction(angstrom), Fraction(amu)
+
+
+def crd_expect(m):
+    ang, amu = _crd_units()
+    title = "".join(t + "\n" for t in m["title"])
+    at = lambda a: f"{a['resnum']}:{F.enc_str(a['resname'])}:{F.enc_str(a['attype'])}:{F.enc_str(a['segid'])}:{a['resid']}"  # noqa: E731
+    return "ok " + ";".join([F.enc_str(title), F.enc_list(m["atoms"], at),
+                             F.enc_list([num_frac(x) * ang for a in m["atoms"] for x in a["xyz"]], enc_rat),
+                             F.enc_list([num_frac(a["mass"]) * amu for a in m["atoms"]], enc_rat)])
+
+
+def crd_impl(raw, ref):
+    r = F.real_load(raw, "charmm")
+    if not r.ok:
+        return "err " + r.err
+    if not ref.startswith("ok "):
+        return "ok <loaded>"
+    d = r.value
+    rf = ref[3:].split(";")
+    toks = lambda s: [] if s == "@" else s.split(",")  # noqa: E731
+    ff, ex = d.atffparams, d.extra
+    n = len(d.atmasses)
+    ats = [f"{int(ff['resnums'][k])}:{F.enc_str(str(ff['resnames'][k]))}:{F.enc_str(str(ff['attypes'][k]))}:"
+           f"{F.enc_str(str(ex['segid'][k]))}:{int(ex['resid'][k])}" for k in range(n)]
+    return "ok " + ";".join([F.enc_str(d.title), F.enc_list(ats, str), snap_list(d.atcoords.ravel(), toks(rf[2])),
+                             snap_list(d.atmasses, toks(rf[3]))])
+
+
 FORMATS = {
     "glog": dict(fields=["one_ints.olp", "one_ints.kin_ao", "one_ints.na_ao", "two_ints.er_ao"], gen=glog_gen, enc=glog_enc, write=glog_write, expect=glog_expect, impl=lambda raw, ref, m: glog_impl_line(raw),
                  fmt="gaussianlog", n=(36, 300), load=lambda m: "glog"),
+    "crd": dict(fields=["title", "atffparams/extra", "atcoords", "atmasses"], gen=crd_gen, enc=crd_enc, write=crd_write,
+                expect=crd_expect, impl=lambda raw, ref, m: crd_impl(raw, ref), fmt="charmm", n=(30, 300), load=lambda m: "crd"),
     "vasp": dict(fields=["title", "atnums", "cellvecs", "atcoords", "cube.shape", "cube.axes", "cube.data"], gen=vasp_gen, enc=vasp_enc, write=vasp_write, expect=vasp_expect,
                  impl=lambda raw, ref, m: vasp_impl(raw, ref, m["kind"]), fmt="chgcar/locpot", n=(36, 300), load=lambda m: m["kind"]),
 }
@@ -690,7 +796,7 @@ def corpus_corr(ctx):
 
 
 CORPUS = [("glog", "glog", "water_sto3g_hf_g03.log"), ("vasp", "chgcar", "CHGCAR.oxygen"), ("vasp", "chgcar", "CHGCAR.water"),
-          ("vasp", "locpot", "LOCPOT.oxygen")]
+          ("vasp", "locpot", "LOCPOT.oxygen"), ("crd", "crd", "crambin.crd")]
 
 
 def search(ctx):
